@@ -87,6 +87,11 @@ def pty_placement(case, acc):
         child = pexpect.spawn(pup.argv[0], pup.argv[1:], timeout=5, maxread=size, use_poll=poll)
         child.delayafterclose = child.delayafterterminate = 0.02
         pid = pup.wait_ready()
+        if case.get('holder'):
+            # a grandchild keeps the terminal open: the master never sees a hang-up, the end of the stream is decided
+            # by the child-status checks alone
+            state['holder'] = int(pup.cmd('H 60', 'h '))
+            acc.count('pty_placements_with_terminal_holder')
 
         def perform(a):
             act = plan[a]
@@ -233,6 +238,11 @@ def pty_placement(case, acc):
             try:
                 child.close(force=True)
             except Exception:
+                pass
+        if state.get('holder'):
+            try:
+                os.kill(state['holder'], signal.SIGKILL)
+            except OSError:
                 pass
         pup.cleanup()
 
@@ -724,6 +734,14 @@ def plan(tier, seed):
                                            (65536, True, 'expect')]:
                     cases.append({'kind': 'pty', 'plan': pl, 'placement': list(p), 'size': size, 'poll': poll,
                                   'reader': reader})
+    # the same with a grandchild that keeps the terminal open after the child's exit (no hang-up on the master)
+    for pl in (['W', 'X'], ['W', 'W', 'X'], ['X']):
+        allp = list(placements(len(pl), n))
+        if tier == 'quick':
+            allp = [p for i, p in enumerate(allp) if (i + seed) % 3 == 0]
+        for p in allp:
+            cases.append({'kind': 'pty', 'plan': pl, 'placement': list(p), 'size': rng.choice([1, 7, 2000]),
+                          'poll': rng.random() < 0.5, 'reader': rng.choice(['loop', 'expect']), 'holder': True})
     # in-process fd/socket placements (cheap): all placements
     for tr in ('fd', 'socket'):
         for pl in (['W', 'X'], ['W', 'W', 'X'], ['X'], ['W', 'W', 'W', 'X']):
